@@ -100,6 +100,66 @@ def _resolve_check(name):
              'class': 'c19-name-resolves', 'input': {'expr': name}, 'replay': {'kind': 'name', 'expr': name}}]
 
 
+def _history_job(scen):
+    """The names an expression can see do not grow with use: after match conditions were evaluated (library classes, the
+    command line) or expressions were evaluated with supplied locals, the default globals are still exactly the documented
+    built-ins and the names supplied to earlier evaluations ('from', 'to', ...) do not resolve."""
+    import json
+    from graphtage import expressions
+    from vlib import gt
+    fails = []
+
+    def fail(kind, what):
+        fails.append({'what': f"{what} [after scenario {scen!r}]", 'class': f'c19-{kind}', 'input': {'scenario': scen},
+                      'replay': {'kind': 'history', 'scenario': scen}})
+    before = dict(expressions.DEFAULT_GLOBALS)
+    try:
+        if scen == 'matchers':
+            from graphtage import constraints, json as gj
+            a, b = gj.build_tree({"id": 1, "v": [1, 2]}), gj.build_tree({"id": 2, "v": [1, 3]})
+            for src in ('from == to', 'from["id"] == to["id"]', 'len(from) == len(to)', 'from.nosuch', 'to', 'from', '1 == 1', 'nosuchname'):
+                cond = expressions.parse(src)
+                for cls in (constraints.MatchIf, constraints.MatchUnless):
+                    m = cls(cond)
+                    for x, y in ((a, b), (a.children()[0], b.children()[0]) if a.children() else (a, b)):
+                        try:
+                            m(x, y)
+                        except Exception:
+                            pass
+        elif scen == 'cli':
+            tf = gt.TempFiles()
+            try:
+                pa, pb = tf.write(json.dumps({"id": 1, "v": [1, 2]}), '.json'), tf.write(json.dumps({"id": 2, "v": [1, 3]}), '.json')
+                for flag, ex in (('--match-if', 'from == to'), ('--match-unless', 'from == to'), ('--match-if', 'from["id"] == to["id"]')):
+                    gt.run_cli([pa, pb, '--no-status', '--no-color', flag, ex])
+            finally:
+                tf.cleanup()
+        elif scen == 'eval-locals':
+            for src, loc in (('x + 1', {'x': 1}), ('from', {'from': 3}), ('to.real', {'to': 4}), ('secret', {'secret': 's'})):
+                try:
+                    expressions.parse(src).eval(locals=loc)
+                except Exception:
+                    pass
+            try:
+                expressions.parse('g').eval(locals={}, globals={'g': 5})
+            except Exception:
+                pass
+    except Exception as ex:
+        fail('history-exception:' + type(ex).__name__, f"{type(ex).__name__}: {ex}")
+        return fails
+    after = expressions.DEFAULT_GLOBALS
+    if set(after) != set(before) or any(after[k] is not before[k] for k in before):
+        extra = sorted(set(after) - set(before))
+        changed = sorted(k for k in before if k in after and after[k] is not before[k])
+        fail('default-globals-modified', f"expressions.DEFAULT_GLOBALS changed by use: new names {extra}, removed {sorted(set(before) - set(after))}, rebound {changed}")
+    for n in ('from', 'to', 'x', 'secret', 'g'):
+        for f in _resolve_check(n):
+            f['what'] += f" [after scenario {scen!r}]"
+            f['replay'] = {'kind': 'history', 'scenario': scen}
+            fails.append(f)
+    return fails
+
+
 def witnesses(func_result, ob, repo_root, tier):
     for expr in ('x._secret', 'x.__class__', 'x.__dict__', 'l[0]._secret', 'd["k"]._secret', 'x.pub._x', '(x)._secret',
                  'x . _secret', 'x.method._secret', 'x.__getattribute__("_secret")'):
@@ -113,6 +173,9 @@ def replay(entry, repo_root):
     r = entry.get('replay') or {}
     if r.get('kind') == 'expr':
         f = _eval_inner(r['expr'])
+        return f[0]['what'] if f else None
+    if r.get('kind') == 'history':
+        f = _history_job(r['scenario'])
         return f[0]['what'] if f else None
     if r.get('kind') == 'name':
         f = _resolve_check(r['expr'])
@@ -182,9 +245,12 @@ def bounded(tier, seed, repo_root):
              'repr', 'isinstance', 'callable', 'delattr', 'hasattr', 'b', 'from', 'to']
     for n in names:
         fails += _resolve_check(n)
+    scens = ['matchers', 'cli', 'eval-locals']
+    for scen in scens:      # (own pool each: state left behind stays in that worker)
+        fails += [f for fs in pmap(_history_job, [scen], repo_root, workers=1) for f in fs]
     return [{
         'name': 'C19.tripwire', 'bound': f"{len(exprs)} expressions: grammar over {len(ATOMS)} atoms x {len(MEMBERS)} member names, calls, "
-        f"indexing, operators to depth {2 if tier == 'quick' else 3} (depth>=2 sampled) + hand-written routes; {len(names)} free names",
+        f"indexing, operators to depth {2 if tier == 'quick' else 3} (depth>=2 sampled) + hand-written routes; {len(names)} free names; {len(scens)} usage histories (match conditions through the library classes and the command line, evaluations with supplied locals / globals) after which the default globals and 5 free names are re-checked",
         'evaluations': len(exprs) + len(names), 'distinct_nontrivial': len(exprs), 'exhaustive': False,
         'rule': 'expression string -> parse(...).eval(locals=env with tripwired objects): no read of an attribute whose name '
                 'starts with "_"; free names outside supplied/whitelist do not resolve',
